@@ -6,7 +6,7 @@
     pkg/provider/xml/*/models.go).  NOT modelled: compress/flate (Section variables, hypothesis
     inflate (deflate b) = Some b), encoding/xml's decoder beyond the printer's language. *)
 From Saml Require Import Base.Bytes Codec.Utf8 Codec.XmlEscape Codec.Sanitize Codec.Base64 Xml.Tree Xml.Lex Xml.Balanced Xml.SanTree
-  Idp.FactTypes Gen.Facts Core.WireCodec Xml.SchemaTypes Xml.Schema Gen.Schema Idp.BuilderTypes Idp.Builder Xml.Unmarshal.
+  Idp.FactTypes Gen.Facts Core.WireCodec Xml.SchemaTypes Xml.Schema Gen.Schema Idp.BuilderTypes Idp.Builder Xml.Unmarshal Xml.RoundTrip Gen.Builders Idp.BuiltDoc Idp.BuiltRoundTrip.
 
 (** values made of legal XML characters come back exactly, through the XML reference decoder and through Go's *)
 Theorem C18_escape_roundtrip : forall s, legal_xml s = true -> xml_unescape (xml_escape s) = Some s /\ go_text_unescape (xml_escape s) = Some s.
@@ -59,6 +59,21 @@ Example C18_unmarshal_example :
   = Some (VStruct [VName a (b "NameID"); VStr (b "f<"); VStr []; VStr []; VStr []; VStr (b "]]>&")]).
 Proof. vm_compute. reflexivity. Qed.
 
+(** round trip at the level of field values, through the models of both directions: the documents the IdP builds (builder
+    programs from the source, Marshal model, name-space resolution, Unmarshal model) decode back to the values that were put
+    in, for ALL strings in them (element names in XMLName fields aside) *)
+Theorem C18_roundtrip_logout_response : forall reqid url issuer reason message id1 issue,
+  built_roundtrips "makeFailedLogoutResponse" (Some (logout_rec reqid url issuer)) [DStr reason; DStr message; DStr (b "f")] [id1] issue [] "samlp.LogoutResponseType" /\
+  built_roundtrips "makeSuccessfulLogoutResponse" (Some (logout_rec reqid url issuer)) [DStr (b "f")] [id1] issue [] "samlp.LogoutResponseType".
+Proof. exact logout_response_roundtrips. Qed.
+Theorem C18_roundtrip_failed_response : forall reqid acs issuer audience reason message id1 issue,
+  built_roundtrips "makeFailedResponse" (Some (response_rec reqid acs issuer audience)) [DStr reason; DStr message; DStr (b "f")] [id1] issue [] "samlp.ResponseType".
+Proof. exact failed_response_roundtrips. Qed.
+Theorem C18_roundtrip_success_response : forall reqid acs email username ci issuer ca audience c1 id1 c2 id2 c3 issue c4 until,
+  built_roundtrips "makeSuccessfulResponse" (Some (response_rec reqid acs (ci :: issuer) (ca :: audience)))
+    [attributes_rec email [] [] [] [] username []; DStr (b "f"); DNil] [c1 :: id1; c2 :: id2] (c3 :: issue) (c4 :: until) "samlp.ResponseType".
+Proof. exact success_response_roundtrips. Qed.
+
 (** the transport codec *)
 Theorem C18_base64 : forall x, b64_decode (b64_encode x) = Some x.
 Proof. exact b64_decode_encode. Qed.
@@ -97,3 +112,6 @@ Print Assumptions C18_codec_source.
 Print Assumptions C18_schema_names.
 Print Assumptions C18_struct_document.
 Print Assumptions C18_raw_xml_fields.
+Print Assumptions C18_roundtrip_logout_response.
+Print Assumptions C18_roundtrip_failed_response.
+Print Assumptions C18_roundtrip_success_response.
